@@ -746,6 +746,81 @@ func runC05(r *vk.Run) {
 		}
 	})
 
+	// the text handed to the engine is the text that is parsed: white space inside string literals is part
+	// of the string, a comment ends at its line break. Checked by evaluation (the user's entry point):
+	// line filters whose needles contain white-space runs, laid out over several lines with comments.
+	r.Phase("viaeval", r.N(300, 30000), func(c *vk.Case) {
+		rng := c.Rng
+		pool := []string{"disk  full", "disk full", "a\tb", "a b", "a  b", "x", "tab\t\tend", "two\u00a0words", "two words", " lead", "trail "}
+		var recs []Rec
+		for i, l := range pool {
+			recs = append(recs, Rec{TS: logT0 + int64(i+1)*1e9, Line: l, Labels: map[string]string{"job": "j"}})
+		}
+		nf := rng.Range(1, 3)
+		type lf struct {
+			neg    bool
+			needle string
+		}
+		var fs []lf
+		text := `{job="j"}`
+		sepOf := func() string {
+			return vk.Pick(rng, []string{" ", "\n", "\n  ", " # only errors\n", "\t", " #\n", "\n# {job=\"x\"} |= \"not code\"\n", "  "})
+		}
+		for i := 0; i < nf; i++ {
+			f := lf{neg: rng.Chance(1, 3), needle: vk.Pick(rng, []string{"disk  full", "disk full", "a\tb", "a b", "  ", "\t", " ", "two\u00a0words", "\t\t", "k ", " l"})}
+			fs = append(fs, f)
+			op := "|="
+			if f.neg {
+				op = "!="
+			}
+			lit := strconv.Quote(f.needle)
+			if rng.Bool() && !strings.Contains(f.needle, "`") {
+				lit = "`" + f.needle + "`" // raw string: the bytes as they are, a literal tab included
+			}
+			text += sepOf() + op + vk.Pick(rng, []string{" ", "", "\n"}) + lit
+		}
+		if rng.Chance(1, 3) {
+			text += vk.Pick(rng, []string{" # trailing comment", "\n", " #"})
+		}
+		var want []string
+		for _, l := range pool {
+			keep := true
+			for _, f := range fs {
+				if strings.Contains(l, f.needle) == f.neg {
+					keep = false
+				}
+			}
+			if keep {
+				want = append(want, l)
+			}
+		}
+		res, err := evalQuery(&MemQuerier{Recs: recs, ErrAfter: -1}, text, EvalP{Start: logT0, End: logT0 + 60e9, Step: time.Second, Limit: -1})
+		c.Eval(1)
+		det := map[string]any{"query": text, "lines": pool, "expected": want}
+		if err != nil {
+			c.Fail("", fmt.Sprintf("valid query %q failed through Engine.Eval: %v", text, err), det)
+			return
+		}
+		var got []string
+		for _, st := range res.Streams {
+			for _, e := range st.Entries {
+				got = append(got, e.Line)
+			}
+		}
+		sort.Strings(got)
+		sort.Strings(want)
+		if fmt.Sprintf("%q", got) != fmt.Sprintf("%q", want) {
+			det["returned"] = got
+			c.Fail("", fmt.Sprintf("query %q returned %q, its text denotes %q", text, got, want), det)
+			return
+		}
+		c.Count("evaluated_layouts", 1)
+		if len(want) > 0 && len(want) < len(pool) {
+			c.Nontrivial("viaeval|" + text)
+		}
+	})
+	r.Require("evaluated_layouts", 200)
+
 	// negative: static rules and grammar violations over generated parts
 	r.Phase("negative", r.N(600, 150000), func(c *vk.Case) {
 		rng := c.Rng
